@@ -256,6 +256,10 @@ impl<T: HashAlgorithm> Nomt<T> {
 
     /// Returns a recent root of the trie.
     pub fn root(&self) -> Root {
+        // (edition 2021: the temporaries of a tail expression — here the guard of `shared` — are dropped
+        // AFTER the locals of the block, so this marker is reported while `shared` is still held)
+        #[cfg(nomt_verif)]
+        let _verif_m = crate::verif_hook::on_drop("read_root");
         self.shared.lock().root.clone()
     }
 
@@ -271,7 +275,19 @@ impl<T: HashAlgorithm> Nomt<T> {
     /// This is used for testing for now.
     #[doc(hidden)]
     pub fn read(&self, path: KeyPath) -> anyhow::Result<Option<Value>> {
+        #[cfg(nomt_verif)]
+        crate::verif_hook::lock_step("call.nomt_read");
+        #[cfg(nomt_verif)]
+        crate::verif_hook::lock_step("A.read.wait");
+        #[cfg(nomt_verif)]
+        let _verif_rpost = crate::verif_hook::on_drop("A.read_unlock.post");
         let _guard = self.access_lock.read();
+        #[cfg(nomt_verif)]
+        crate::verif_hook::lock_step("A.read.got");
+        #[cfg(nomt_verif)]
+        let _verif_rpre = crate::verif_hook::on_drop("A.read_unlock.pre");
+        #[cfg(nomt_verif)]
+        crate::verif_hook::lock_step("sess_read");
         self.store.load_value(path)
     }
 
@@ -310,12 +326,31 @@ impl<T: HashAlgorithm> Nomt<T> {
     pub fn begin_session(&self, params: SessionParams) -> Session<T> {
         let live_overlay = params.overlay;
 
+        #[cfg(nomt_verif)]
+        let verif_sid = crate::verif_hook::next_session_id();
+        #[cfg(nomt_verif)]
+        crate::verif_hook::call_begin_session(
+            verif_sid,
+            params.take_global_guard,
+            live_overlay.parent_root().is_some(),
+        );
+        #[cfg(nomt_verif)]
+        if params.take_global_guard {
+            crate::verif_hook::lock_step("A.read.wait");
+        }
+
         // We must take the access guard before instantiating the rollback delta,
         // because it creates a read transaction and any commits or rollbacks will block
         // indefinitely for us to finish.
         let access_guard = params
             .take_global_guard
             .then(|| RwLock::read_arc(&self.access_lock));
+        #[cfg(nomt_verif)]
+        let verif_has_guard = access_guard.is_some();
+        #[cfg(nomt_verif)]
+        if verif_has_guard {
+            crate::verif_hook::lock_step("A.read.got");
+        }
 
         let store = self.store.clone();
         let rollback_delta = if params.record_rollback_delta {
@@ -343,7 +378,21 @@ impl<T: HashAlgorithm> Nomt<T> {
             rollback_delta,
             overlay: live_overlay,
             witness_mode: params.witness,
+            #[cfg(nomt_verif)]
+            verif_sid,
+            #[cfg(nomt_verif)]
+            verif_read_pre: crate::verif_hook::on_drop_sid(
+                verif_has_guard,
+                "A.read_unlock.pre",
+                verif_sid,
+            ),
             access_guard,
+            #[cfg(nomt_verif)]
+            verif_read_post: crate::verif_hook::on_drop_sid(
+                verif_has_guard,
+                "A.read_unlock.post",
+                verif_sid,
+            ),
             prev_root: Root(prev_root),
             _marker: std::marker::PhantomData,
         }
@@ -356,11 +405,21 @@ impl<T: HashAlgorithm> Nomt<T> {
     /// Fails if the DB is not configured for rollback or doesn't have enough commits logged to
     /// rollback.
     pub fn rollback(&self, n: usize) -> anyhow::Result<()> {
+        #[cfg(nomt_verif)]
+        crate::verif_hook::call_rollback(n);
         if n == 0 {
             return Ok(());
         }
 
+        #[cfg(nomt_verif)]
+        crate::verif_hook::lock_step("A.write.wait");
+        #[cfg(nomt_verif)]
+        let _verif_wpost = crate::verif_hook::on_drop("A.write_unlock.post");
         let _write_guard = self.access_lock.write();
+        #[cfg(nomt_verif)]
+        crate::verif_hook::lock_step("A.write.got");
+        #[cfg(nomt_verif)]
+        let _verif_wpre = crate::verif_hook::on_drop("A.write_unlock.pre");
         #[cfg(nomt_verif)]
         let _ = crate::verif_hook::step("guard_write");
 
@@ -368,6 +427,8 @@ impl<T: HashAlgorithm> Nomt<T> {
         // touched: truncating the log is destructive and the in-memory state may be inconsistent.
         #[cfg(nomt_verif)]
         let _ = crate::verif_hook::step("poison_check");
+        #[cfg(nomt_verif)]
+        crate::verif_hook::lock_step("chk_poison");
         if self.store.is_poisoned() {
             anyhow::bail!("Store is poisoned due to prior error");
         }
@@ -375,6 +436,8 @@ impl<T: HashAlgorithm> Nomt<T> {
         let Some(rollback) = self.store.rollback() else {
             anyhow::bail!("rollback: not enabled");
         };
+        #[cfg(nomt_verif)]
+        crate::verif_hook::lock_step("log_pop");
         let Some(traceback) = rollback.truncate(n)? else {
             anyhow::bail!("rollback: not enough logged for rolling back");
         };
@@ -516,7 +579,15 @@ pub struct Session<T> {
     witness_mode: WitnessMode,
     // Note: this needs to be after rollback_delta and merkle_updater in declaration order,
     // so this is dropped after all read transactions are taken, even when the session is dropped.
+    // (verification hook: `verif_read_pre` is declared right before the guard — it is dropped, and reports
+    // `A.read_unlock.pre`, right before the guard is released —, `verif_read_post` right after it)
+    #[cfg(nomt_verif)]
+    verif_sid: u64,
+    #[cfg(nomt_verif)]
+    verif_read_pre: crate::verif_hook::LockDrop,
     access_guard: Option<ArcRwLockReadGuard<parking_lot::RawRwLock, ()>>,
+    #[cfg(nomt_verif)]
+    verif_read_post: crate::verif_hook::LockDrop,
     prev_root: Root,
     _marker: std::marker::PhantomData<T>,
 }
@@ -541,6 +612,10 @@ impl<T> Session<T> {
     ///
     /// Returns `None` if the value is not stored under the given key. Fails only if I/O fails.
     pub fn read(&self, path: KeyPath) -> anyhow::Result<Option<Value>> {
+        #[cfg(nomt_verif)]
+        crate::verif_hook::lock_step_sid("call.sess_read", self.verif_sid);
+        #[cfg(nomt_verif)]
+        crate::verif_hook::lock_step("sess_read");
         let _maybe_guard = self.metrics.record(Metric::ValueFetchTime);
         if let Some(value_change) = self.overlay.value(&path) {
             return Ok(value_change.as_option().map(|v| v.to_vec()));
@@ -599,6 +674,11 @@ impl<T> Session<T> {
             .value_iter(start, end)
             .map(|(k, c)| (k, c.as_option().map(|v| v.to_vec())))
             .collect()
+    }
+
+    /// The lock recorder's id of this session.
+    pub fn verif_sid(&self) -> u64 {
+        self.verif_sid
     }
 
     /// `LiveOverlay::value(key)` of the session's overlay.
@@ -734,7 +814,29 @@ impl FinishedSession {
     /// The changeset may be invalidated if another competing session, overlay, or rollback was
     /// committed.
     pub fn commit<T: HashAlgorithm>(self, nomt: &Nomt<T>) -> Result<(), anyhow::Error> {
+        #[cfg(nomt_verif)]
+        crate::verif_hook::call_commit(
+            "call.commit",
+            &self.prev_root.into_inner(),
+            &self.merkle_output.root,
+            self.rollback_delta.is_some(),
+            self.take_global_guard,
+        );
+        #[cfg(nomt_verif)]
+        if self.take_global_guard {
+            crate::verif_hook::lock_step("A.write.wait");
+        }
+        #[cfg(nomt_verif)]
+        let _verif_wpost =
+            crate::verif_hook::on_drop_if(self.take_global_guard, "A.write_unlock.post");
         let _write_guard = self.take_global_guard.then(|| nomt.access_lock.write());
+        #[cfg(nomt_verif)]
+        if self.take_global_guard {
+            crate::verif_hook::lock_step("A.write.got");
+        }
+        #[cfg(nomt_verif)]
+        let _verif_wpre =
+            crate::verif_hook::on_drop_if(self.take_global_guard, "A.write_unlock.pre");
         #[cfg(nomt_verif)]
         if self.take_global_guard {
             let _ = crate::verif_hook::step("guard_write");
@@ -742,6 +844,8 @@ impl FinishedSession {
 
         #[cfg(nomt_verif)]
         let _ = crate::verif_hook::step("poison_check");
+        #[cfg(nomt_verif)]
+        crate::verif_hook::lock_step("chk_poison");
         if nomt.store.is_poisoned() {
             anyhow::bail!("Store is poisoned due to prior error");
         }
@@ -749,7 +853,11 @@ impl FinishedSession {
         {
             let mut shared = nomt.shared.lock();
             #[cfg(nomt_verif)]
+            let _verif_m = crate::verif_hook::held("M.lock", "M.unlock");
+            #[cfg(nomt_verif)]
             let _ = crate::verif_hook::step("root_check");
+            #[cfg(nomt_verif)]
+            crate::verif_hook::lock_step("chk_root");
             if shared.root != self.prev_root {
                 anyhow::bail!(
                     "Changeset no longer valid (expected previous root {:?}, got {:?})",
@@ -761,11 +869,15 @@ impl FinishedSession {
             shared.last_commit_marker = None;
             #[cfg(nomt_verif)]
             let _ = crate::verif_hook::step("root_set");
+            #[cfg(nomt_verif)]
+            crate::verif_hook::lock_step("pub_root");
         }
 
         if let Some(rollback_delta) = self.rollback_delta {
             // UNWRAP: if rollback_delta is `Some`, then rollback must be also `Some`.
             let rollback = nomt.store.rollback().unwrap();
+            #[cfg(nomt_verif)]
+            crate::verif_hook::lock_step("log_push");
             if let Err(e) = rollback.commit(rollback_delta) {
                 // The changeset was accepted but cannot be carried through, and the rollback log
                 // may be left half-written: treat it like any other failed commit step.
@@ -796,10 +908,32 @@ impl FinishedSession {
         mut self,
         nomt: &Nomt<T>,
     ) -> Result<Option<Self>, anyhow::Error> {
+        #[cfg(nomt_verif)]
+        crate::verif_hook::call_commit(
+            "call.try_commit",
+            &self.prev_root.into_inner(),
+            &self.merkle_output.root,
+            self.rollback_delta.is_some(),
+            self.take_global_guard,
+        );
+        #[cfg(nomt_verif)]
+        crate::verif_hook::lock_step("A.try_write.pre");
+        #[cfg(nomt_verif)]
+        let mut _verif_wpost = crate::verif_hook::on_drop_if(false, "A.write_unlock.post");
         let write_guard = self
             .take_global_guard
             .then(|| nomt.access_lock.try_write())
             .flatten();
+        #[cfg(nomt_verif)]
+        if write_guard.is_some() {
+            _verif_wpost.arm();
+            crate::verif_hook::lock_step("A.try_write.ok");
+        } else {
+            crate::verif_hook::lock_step("A.try_write.busy");
+        }
+        #[cfg(nomt_verif)]
+        let _verif_wpre =
+            crate::verif_hook::on_drop_if(write_guard.is_some(), "A.write_unlock.pre");
         #[cfg(nomt_verif)]
         let _ = crate::verif_hook::step("guard_try");
         if write_guard.is_none() {
@@ -808,6 +942,8 @@ impl FinishedSession {
 
         #[cfg(nomt_verif)]
         let _ = crate::verif_hook::step("poison_check");
+        #[cfg(nomt_verif)]
+        crate::verif_hook::lock_step("chk_poison");
         if nomt.store.is_poisoned() {
             anyhow::bail!("Store is poisoned due to prior error");
         }
@@ -818,7 +954,11 @@ impl FinishedSession {
         {
             let shared = nomt.shared.lock();
             #[cfg(nomt_verif)]
+            let _verif_m = crate::verif_hook::held("M.lock", "M.unlock");
+            #[cfg(nomt_verif)]
             let _ = crate::verif_hook::step("root_check");
+            #[cfg(nomt_verif)]
+            crate::verif_hook::lock_step("chk_root");
             if shared.root != self.prev_root {
                 anyhow::bail!(
                     "Changeset no longer valid (expected previous root {:?}, got {:?})",
@@ -831,6 +971,8 @@ impl FinishedSession {
         if let Some(rollback_delta) = self.rollback_delta {
             // UNWRAP: if rollback_delta is `Some`, then rollback must be also `Some`.
             let rollback = nomt.store.rollback().unwrap();
+            #[cfg(nomt_verif)]
+            crate::verif_hook::lock_step("log_push");
             let maybe_delta = match rollback.commit_nonblocking(rollback_delta) {
                 Ok(maybe_delta) => maybe_delta,
                 Err(e) => {
@@ -842,6 +984,8 @@ impl FinishedSession {
                 }
             };
             if let Some(delta) = maybe_delta {
+                #[cfg(nomt_verif)]
+                crate::verif_hook::lock_step("log_push.busy");
                 self.rollback_delta = Some(delta);
                 return Ok(Some(self));
             }
@@ -849,10 +993,14 @@ impl FinishedSession {
 
         {
             let mut shared = nomt.shared.lock();
+            #[cfg(nomt_verif)]
+            let _verif_m = crate::verif_hook::held("M.lock", "M.unlock");
             shared.root = Root(self.merkle_output.root);
             shared.last_commit_marker = None;
             #[cfg(nomt_verif)]
             let _ = crate::verif_hook::step("root_set");
+            #[cfg(nomt_verif)]
+            crate::verif_hook::lock_step("pub_root");
         }
 
         nomt.store.commit(
@@ -877,6 +1025,8 @@ impl Overlay {
     /// rollback.
     pub fn commit<T: HashAlgorithm>(self, nomt: &Nomt<T>) -> anyhow::Result<()> {
         #[cfg(nomt_verif)]
+        crate::verif_hook::lock_step_with("call.ov_commit", || self.verif_call_detail());
+        #[cfg(nomt_verif)]
         let _ = crate::verif_hook::step("marker_check");
         if !self.parent_matches_marker(nomt.shared.lock().last_commit_marker.as_ref()) {
             anyhow::bail!("Overlay parent not committed");
@@ -895,12 +1045,22 @@ impl Overlay {
             .collect();
         let rollback_delta = self.rollback_delta().map(|delta| delta.clone());
 
+        #[cfg(nomt_verif)]
+        crate::verif_hook::lock_step("A.write.wait");
+        #[cfg(nomt_verif)]
+        let _verif_wpost = crate::verif_hook::on_drop("A.write_unlock.post");
         let _write_guard = nomt.access_lock.write();
+        #[cfg(nomt_verif)]
+        crate::verif_hook::lock_step("A.write.got");
+        #[cfg(nomt_verif)]
+        let _verif_wpre = crate::verif_hook::on_drop("A.write_unlock.pre");
         #[cfg(nomt_verif)]
         let _ = crate::verif_hook::step("guard_write");
 
         #[cfg(nomt_verif)]
         let _ = crate::verif_hook::step("poison_check");
+        #[cfg(nomt_verif)]
+        crate::verif_hook::lock_step("chk_poison");
         if nomt.store.is_poisoned() {
             anyhow::bail!("Store is poisoned due to prior error");
         }
@@ -908,7 +1068,11 @@ impl Overlay {
         {
             let mut shared = nomt.shared.lock();
             #[cfg(nomt_verif)]
+            let _verif_m = crate::verif_hook::held("M.lock", "M.unlock");
+            #[cfg(nomt_verif)]
             let _ = crate::verif_hook::step("root_check");
+            #[cfg(nomt_verif)]
+            crate::verif_hook::lock_step("chk_root");
             if shared.root != self.prev_root() {
                 anyhow::bail!(
                     "Changeset no longer valid (expected previous root {:?}, got {:?})",
@@ -925,11 +1089,15 @@ impl Overlay {
             shared.last_commit_marker = Some(marker);
             #[cfg(nomt_verif)]
             let _ = crate::verif_hook::step("root_set");
+            #[cfg(nomt_verif)]
+            crate::verif_hook::lock_step("pub_root");
         }
 
         if let Some(rollback_delta) = rollback_delta {
             // UNWRAP: if rollback_delta is `Some`, then rollback must be also `Some`.
             let rollback = nomt.store.rollback().unwrap();
+            #[cfg(nomt_verif)]
+            crate::verif_hook::lock_step("log_push");
             if let Err(e) = rollback.commit(rollback_delta) {
                 // The changeset was accepted but cannot be carried through, and the rollback log
                 // may be left half-written: treat it like any other failed commit step.
@@ -956,6 +1124,8 @@ impl Overlay {
         nomt: &Nomt<T>,
     ) -> anyhow::Result<Option<Self>> {
         #[cfg(nomt_verif)]
+        crate::verif_hook::lock_step_with("call.ov_try_commit", || self.verif_call_detail());
+        #[cfg(nomt_verif)]
         let _ = crate::verif_hook::step("marker_check");
         if !self.parent_matches_marker(nomt.shared.lock().last_commit_marker.as_ref()) {
             anyhow::bail!("Overlay parent not committed");
@@ -974,7 +1144,21 @@ impl Overlay {
             .collect();
         let rollback_delta = self.rollback_delta().map(|delta| delta.clone());
 
+        #[cfg(nomt_verif)]
+        crate::verif_hook::lock_step("A.try_write.pre");
+        #[cfg(nomt_verif)]
+        let mut _verif_wpost = crate::verif_hook::on_drop_if(false, "A.write_unlock.post");
         let write_guard = nomt.access_lock.try_write();
+        #[cfg(nomt_verif)]
+        if write_guard.is_some() {
+            _verif_wpost.arm();
+            crate::verif_hook::lock_step("A.try_write.ok");
+        } else {
+            crate::verif_hook::lock_step("A.try_write.busy");
+        }
+        #[cfg(nomt_verif)]
+        let _verif_wpre =
+            crate::verif_hook::on_drop_if(write_guard.is_some(), "A.write_unlock.pre");
         #[cfg(nomt_verif)]
         let _ = crate::verif_hook::step("guard_try");
         if write_guard.is_none() {
@@ -983,6 +1167,8 @@ impl Overlay {
 
         #[cfg(nomt_verif)]
         let _ = crate::verif_hook::step("poison_check");
+        #[cfg(nomt_verif)]
+        crate::verif_hook::lock_step("chk_poison");
         if nomt.store.is_poisoned() {
             anyhow::bail!("Store is poisoned due to prior error");
         }
@@ -990,7 +1176,11 @@ impl Overlay {
         {
             let mut shared = nomt.shared.lock();
             #[cfg(nomt_verif)]
+            let _verif_m = crate::verif_hook::held("M.lock", "M.unlock");
+            #[cfg(nomt_verif)]
             let _ = crate::verif_hook::step("root_check");
+            #[cfg(nomt_verif)]
+            crate::verif_hook::lock_step("chk_root");
             if shared.root != self.prev_root() {
                 anyhow::bail!(
                     "Changeset no longer valid (expected previous root {:?}, got {:?})",
@@ -1006,11 +1196,15 @@ impl Overlay {
             shared.last_commit_marker = Some(marker);
             #[cfg(nomt_verif)]
             let _ = crate::verif_hook::step("root_set");
+            #[cfg(nomt_verif)]
+            crate::verif_hook::lock_step("pub_root");
         }
 
         if let Some(rollback_delta) = rollback_delta {
             // UNWRAP: if rollback_delta is `Some`, then rollback must be also `Some`.
             let rollback = nomt.store.rollback().unwrap();
+            #[cfg(nomt_verif)]
+            crate::verif_hook::lock_step("log_push");
             if let Err(e) = rollback.commit(rollback_delta) {
                 // The changeset was accepted but cannot be carried through, and the rollback log
                 // may be left half-written: treat it like any other failed commit step.
